@@ -72,10 +72,6 @@ def classify(c, ir):
 def nontrivial(c, ir):
     return H.script_depth(c['script']) >= 2 or bool(H.script_kinds(c['script']) & {'if', 'ife', 'while', 'with', 'down', 'in', 'tell'})
 
-def has_global_chunk_target(script):
-    txt = json.dumps(H.script_to_json(H.strip_names(script)))
-    return '"chunk"' in txt and '["glob"' in txt
-
 def judge(c, ir, ms):
     out = []
     if ir[0] == 'skip':
@@ -90,10 +86,7 @@ def judge(c, ir, ms):
     err = syntax_error(js)
     f = ('emitted JavaScript is not valid: %s' % err) if err else H.js_oracle(c['script'], js)
     if f:
-        fid = None
-        if same_as_model and has_global_chunk_target(c['script']):
-            fid = 'C04-global-chunk-target'
-        out.append((f, 'property', fid))
+        out.append((f, 'property', None))
         return out
     if ms is not None:
         if mt is None:
